@@ -117,6 +117,7 @@ class World:
         self.chunk_policy = self.knobs.get("chunk", "greedy")
         self.proc_names = {}
         self.hist = []  # harness histories (plain data only)
+        self.listdir_seed = self.knobs.get("listdir_seed")
         self.cleanup = []  # callables run at the end of run(), before hooks are restored
         # process-global caches of the tree under test that would make the first run differ
         try:
